@@ -370,3 +370,17 @@ def tlc_replays(module, cfg, num, depth, seed_arg=1, timeout=600, tag="REPLAY"):
         raise ToolError("no %s behaviours produced by %s" % (tag, module))
     log("TLC %s: %d behaviours for replay, %.1fs" % (module, len(out), r.wall))
     return out, r
+
+
+def apalache(module, init, inv, length, timeout=900, cwd=None):
+    """One Apalache query; returns (ok, seconds). Output directories go under work/."""
+    cwd = cwd or SPEC
+    out = os.path.join(WORK, "apalache-out")
+    os.makedirs(out, exist_ok=True)
+    t0 = time.time()
+    p = subprocess.run(["timeout", str(timeout), "apalache-mc", "check", "--out-dir=" + out, "--init=" + init, "--inv=" + inv,
+                        "--length=%d" % length, module + ".tla"], cwd=cwd, stdout=subprocess.PIPE, stderr=subprocess.STDOUT, text=True)
+    ok = p.returncode == 0 and "The outcome is: NoError" in p.stdout
+    if not ok:
+        sys.stdout.write(p.stdout[-2000:])
+    return ok, time.time() - t0
